@@ -19,4 +19,5 @@ let lookup (p : string) : Model.val0 -> Model.val0 =
   | "C04" -> Model.run_C04
   | "C09" -> Model.run_C09
   | "C03" -> Model.run_C03
+  | "C01" -> Model.run_C01
   | _ -> failwith ("unknown property " ^ p)
